@@ -40,7 +40,7 @@ def gen_cases(seed, tier):
                       "growth": rng.choice([0.3, 0.6]), "div": rng.choice([1.8, 2.2]), "k": rng.choice([0.5, 1.0]),
                       # division by a rule, by an event, or both, next to the death event: the kinds of events are told apart by POSITION in
                       # one flat propensity list (seeded change S4_C17: the restored model listed death events before division events)
-                      "divide_by": rng.choice(["rule", "event", "both"]), "init_twice": rng.random() < 0.4})
+                      "divide_by": rng.choice(["rule", "event", "both"]), "init_twice": rng.random() < 0.4, "death_k": rng.choice([0.01, 0.15, 0.3])})
     # cell states (the records handed from mother to daughter, and what a lineage is continued from): every field survives a copy,
     # for every value of the fields -- including 0.0 for the current time / volume next to a non-zero birth time (seeded change S3_C17)
     for _ in range(40 if tier == "quick" else 400):
@@ -199,7 +199,7 @@ def _lineage_case(case):
     M.create_volume_rule("linear", {"growth_rate": case["growth"]})
     if case.get("divide_by", "rule") in ("rule", "both"): M.create_division_rule("volume", {"threshold": case["div"]}, vs)
     if case.get("divide_by", "rule") in ("event", "both"): M.create_division_event("division", {}, "massaction", {"k": 0.4, "species": ""}, vs)
-    M.create_death_event("death", {}, "massaction", {"k": 0.01, "species": ""})
+    M.create_death_event("death", {}, "massaction", {"k": case.get("death_k", 0.01), "species": ""})
     M.py_initialize()
     # a model that has been initialised more than once with its events in place (every simulation entry point may do that): what a copy
     # carries must not depend on it (seeded change S6_C17: event counts taken from lists that grow with every initialisation)
